@@ -70,6 +70,7 @@ func spec(id string) (propSpec, bool) {
 }
 
 var raceMode bool
+var replayBaseDir string
 
 var (
 	verifDir   = "/verif"
@@ -230,7 +231,7 @@ func runShard(ctx context.Context, bin, pkgDir, id, tier string, seed int64, idx
 		"VERIF_TIER="+tier, "VERIF_SEED="+strconv.FormatInt(seed, 10),
 		"VERIF_SHARD="+strconv.Itoa(idx), "VERIF_NSHARDS="+strconv.Itoa(n),
 		"VERIF_OUT="+filepath.Join(outDir, fmt.Sprintf("part-%d.json", idx)),
-		"VERIF_DIR="+verifDir, "VERIF_BUDGET_S="+strconv.Itoa(int(timeout.Seconds())))
+		"VERIF_DIR="+verifDir, "VERIF_BUDGET_S="+strconv.Itoa(int(timeout.Seconds())), "VERIF_REPLAY_DIR="+replayBaseDir)
 	if raceMode {
 		cmd.Env = append(cmd.Env, "GORACE=halt_on_error=1 exitcode=66", "VERIF_SAVE_CURRENT=1")
 	}
@@ -303,9 +304,19 @@ func run(id, tier string) int {
 	raceMode = ps.Race
 	pkgDir := filepath.Join(harnessDir, ps.Pkg)
 	outDir := filepath.Join(buildDir, "out", id+"-"+tier)
+	replayBase := filepath.Join(verifDir, "replays")
+	evidenceDir := filepath.Join(verifDir, "evidence")
+	if r := os.Getenv("VERIF_REPO"); r != "" && r != "/repo" {
+		// sensitivity runs against a scratch copy never touch the registered evidence / replays
+		h := strconv.FormatUint(uint64(hashStr(r)), 16)
+		outDir = filepath.Join(buildDir, "mutant", h, "out", id+"-"+tier)
+		replayBase = filepath.Join(buildDir, "mutant", h, "replays")
+		evidenceDir = filepath.Join(buildDir, "mutant", h, "evidence")
+	}
+	replayBaseDir = replayBase
 	_ = os.RemoveAll(outDir)
 	_ = os.MkdirAll(outDir, 0o755)
-	replayDir := filepath.Join(verifDir, "replays", id)
+	replayDir := filepath.Join(replayBase, id)
 	_ = os.RemoveAll(replayDir)
 	_ = os.MkdirAll(replayDir, 0o755)
 
@@ -466,8 +477,8 @@ func run(id, tier string) int {
 		cov["inconclusive"] = inconclusive
 	}
 	data, _ := json.MarshalIndent(ev, "", " ")
-	_ = os.MkdirAll(filepath.Join(verifDir, "evidence"), 0o755)
-	if err := os.WriteFile(filepath.Join(verifDir, "evidence", id+".json"), data, 0o644); err != nil {
+	_ = os.MkdirAll(evidenceDir, 0o755)
+	if err := os.WriteFile(filepath.Join(evidenceDir, id+".json"), data, 0o644); err != nil {
 		inconclusive = append(inconclusive, "cannot write evidence: "+err.Error())
 	}
 
@@ -655,7 +666,7 @@ func runFuzz(fbin, pkgDir, id string, fz fuzzSpec, outDir, replayDir string) (in
 		"-test.parallel", strconv.Itoa(runtime.NumCPU()), "-test.timeout", "0")
 	cmd.Dir = pkgDir
 	cmd.Stdout, cmd.Stderr = lf, lf
-	cmd.Env = append(goEnv(), "VERIF_TIER=thorough", "VERIF_FUZZ=1", "VERIF_DIR="+verifDir)
+	cmd.Env = append(goEnv(), "VERIF_TIER=thorough", "VERIF_FUZZ=1", "VERIF_DIR="+verifDir, "VERIF_REPLAY_DIR="+replayBaseDir)
 	err := cmd.Run()
 	lf.Close()
 	data, _ := os.ReadFile(logPath)
